@@ -36,6 +36,8 @@ const (
 	zzC13Unexport2        // (unexport 'n "tgt") evaluated in cur
 	zzC13Use2             // (use-package "tgt" "tgt2") evaluated in cur: tgt2 uses tgt
 	zzC13Unuse2           // (unuse-package "tgt" "tgt2") evaluated in cur
+	zzC13SetqQ            // (setq tgt::v X) evaluated in cur
+	zzC13DefineQ          // (defvar tgt::v X) / (defun tgt::f () X) evaluated in cur
 	zzC13NKinds
 )
 
@@ -61,6 +63,7 @@ const (
 	zzC13RMarker      // pkg:name / pkg::name of an exported, never bound variable yields the unbound marker
 	zzC13RColon       // pkg:name reaches unexported own function (from inside) / a merely inherited name
 	zzC13RConflict    // of two used packages exporting the same name only one copy is kept: lost when retracted
+	zzC13RQualWrite   // (setq p::v x) ignored unless v is exported; (defvar p::v x) overwrites a bound unexported v
 	zzC13NRegions
 )
 
@@ -77,9 +80,10 @@ var zzC13RegionID = []string{"",
 	"C13-unbound-marker-value",
 	"C13-single-colon-lenient",
 	"C13-conflict-loser-lost",
+	"C13-qualified-write",
 }
 
-var zzC13Known = []bool{false, true, true, true, true, true, true, true, true, true, true, true, true}
+var zzC13Known = []bool{false, true, true, true, true, true, true, true, true, true, true, true, true, true}
 
 // ---------------------------------------------------------------------------------------------
 // reference model
@@ -163,11 +167,12 @@ func (m *zzC13Model) zzC13Apply1(op zzC13Op, x int64) bool {
 	// the package in whose name space the operation works
 	p := op.cur
 	switch op.kind {
-	case zzC13Export2, zzC13Unexport2:
+	case zzC13Export2, zzC13Unexport2, zzC13SetqQ, zzC13DefineQ:
 		p = op.tgt
 	}
+	isDefine := op.kind == zzC13Define || op.kind == zzC13DefineQ
 	switch op.kind {
-	case zzC13Define, zzC13Setq, zzC13Unbind, zzC13Export, zzC13Export2, zzC13Unexport, zzC13Unexport2:
+	case zzC13Define, zzC13Setq, zzC13SetqQ, zzC13DefineQ, zzC13Unbind, zzC13Export, zzC13Export2, zzC13Unexport, zzC13Unexport2:
 		// an operation on a name whose resolution in p is damaged can move the damage anywhere
 		for r := 1; r < zzC13NRegions; r++ {
 			if m.taint[r][p][k] {
@@ -176,10 +181,21 @@ func (m *zzC13Model) zzC13Apply1(op zzC13Op, x int64) bool {
 		}
 	}
 	switch op.kind {
-	case zzC13Define, zzC13Setq:
+	case zzC13Define, zzC13Setq, zzC13SetqQ, zzC13DefineQ:
 		c := m.zzC13Cands(p, k)
 		if 1 < len(c) {
 			return false
+		}
+		if !m.isFn[k] && p != op.cur {
+			// qualified write from another package: slip's (setq p::v x) reaches Package.Set only
+			// for a record present in p's table and then sets only an exported one; (defvar p::v x)
+			// takes an unexported record for unbound and overwrites it
+			switch {
+			case op.kind == zzC13SetqQ && (len(c) == 0 || !m.exp[c[0]][k]):
+				m.zzC13TaintAll(zzC13RQualWrite, k)
+			case op.kind == zzC13DefineQ && len(c) == 1 && m.bound[c[0]][k] && !m.exp[c[0]][k]:
+				m.zzC13TaintAll(zzC13RQualWrite, k)
+			}
 		}
 		if len(c) == 0 {
 			// a new record in p; slip does not push it anywhere (nothing to push: unexported)
@@ -189,7 +205,7 @@ func (m *zzC13Model) zzC13Apply1(op zzC13Op, x int64) bool {
 			break
 		}
 		o := c[0]
-		if op.kind == zzC13Define && !m.isFn[k] && m.bound[o][k] {
+		if isDefine && !m.isFn[k] && m.bound[o][k] {
 			break // defvar of a bound variable: no effect
 		}
 		wasBound := m.bound[o][k]
@@ -561,6 +577,14 @@ func (sys *zzC13Sys) zzC13Form(op zzC13Op, x int64) slip.Object {
 			return slip.List{slip.Symbol("defun"), slip.Symbol(n), slip.List{}, slip.Fixnum(x)}
 		}
 		return slip.List{slip.Symbol("defvar"), slip.Symbol(n), slip.Fixnum(x)}
+	case zzC13DefineQ:
+		n = sys.pkg[op.tgt] + "::" + n
+		if sys.isFn[op.k] {
+			return slip.List{slip.Symbol("defun"), slip.Symbol(n), slip.List{}, slip.Fixnum(x)}
+		}
+		return slip.List{slip.Symbol("defvar"), slip.Symbol(n), slip.Fixnum(x)}
+	case zzC13SetqQ:
+		return slip.List{slip.Symbol("setq"), slip.Symbol(sys.pkg[op.tgt] + "::" + n), slip.Fixnum(x)}
 	case zzC13Setq:
 		return slip.List{slip.Symbol("setq"), slip.Symbol(n), slip.Fixnum(x)}
 	case zzC13Unbind:
@@ -591,7 +615,7 @@ func (sys *zzC13Sys) zzC13Form(op zzC13Op, x int64) slip.Object {
 // zzC13Step performs one operation on slip and on the model. false: outside the modelled fragment.
 func (sys *zzC13Sys) zzC13Step(m *zzC13Model, op zzC13Op) bool {
 	var x int64
-	if op.kind == zzC13Define || op.kind == zzC13Setq {
+	if op.kind == zzC13Define || op.kind == zzC13Setq || op.kind == zzC13DefineQ || op.kind == zzC13SetqQ {
 		x = sys.zzC13Fresh()
 	}
 	if !m.zzC13Apply(op, x) {
@@ -605,7 +629,7 @@ func (sys *zzC13Sys) zzC13Step(m *zzC13Model, op zzC13Op) bool {
 
 func zzC13OpString(op zzC13Op) string {
 	names := []string{"define", "setq", "unbind", "export", "unexport", "use", "unuse", "export2", "unexport2",
-		"use2", "unuse2"}
+		"use2", "unuse2", "setq::", "define::"}
 	return names[op.kind] + "[cur=" + strconv.Itoa(op.cur) + " k=" + strconv.Itoa(op.k) + " tgt=" +
 		strconv.Itoa(op.tgt) + " tgt2=" + strconv.Itoa(op.tgt2) + "]"
 }
@@ -744,6 +768,15 @@ func zzC13Ops(np, nn, fnMask int, twoArg bool) []zzC13Op {
 				if t2 != t {
 					ops = append(ops, zzC13Op{kind: zzC13Use2, cur: 0, tgt: t, tgt2: t2})
 					ops = append(ops, zzC13Op{kind: zzC13Unuse2, cur: 0, tgt: t, tgt2: t2})
+				}
+			}
+		}
+		// qualified writes, evaluated in package 0 (appended last: the indices above are stable)
+		for t := 1; t < np; t++ {
+			for k := 0; k < nn; k++ {
+				ops = append(ops, zzC13Op{kind: zzC13DefineQ, cur: 0, k: k, tgt: t})
+				if fnMask&(1<<uint(k)) == 0 {
+					ops = append(ops, zzC13Op{kind: zzC13SetqQ, cur: 0, k: k, tgt: t})
 				}
 			}
 		}
